@@ -11,6 +11,13 @@ PY = "/venv/bin/python"
 
 # property -> (technique, level text, level note, design ref)
 CLAIMED = {
+    "C06": ("TLA+ relational specification of align (spec/Arrays.tla Align / CommonAxis, Labels.tla UnionOK / InterOK) enumerated by TLC with "
+            "SharedAxes / KeepsData / OthersUntouched theorems; scenarios replayed, label order compared only where the property fixes it",
+            "TLC enumerates every list of 1-2 (thorough 1-3) one-dimensional arrays over all injective label sequences of the universe incl. empty, "
+            "plus 2-d configurations with partially shared dims, x join x sort x axis; the theorems state the property on the spec; each scenario is "
+            "replayed with int, float, str and mixed int/float labels, inputs snapshotted before and after.",
+            "Trusted: TLC, projection/concretisation, NumPy. Known finding K01 (outer join with an empty axis raises) is reported, not hidden.",
+            "5 (C06)"),
     "C07": ("TLA+ reference semantics of reindex_axis / reindex_like (spec/Arrays.tla Reindex, Labels.tla ReindexPos with numpy.searchsorted "
             "semantics) enumerated by TLC with MovesWithLabels / identity / RaiseIff theorems; scenarios replayed",
             "TLC enumerates every stored order of the axis x every new label sequence (incl. empty, repeated, disjoint) x fill x raise_error x "
